@@ -5,7 +5,7 @@ use serde_json::{json, Value};
 
 use crate::cases::{choose, drive, run_on, Schedule, HARD_ACTION_CAP};
 use crate::driver::{CaseReport, Check};
-use crate::explore::{Act, Consumer, Ev, GRef, Ret, Runner, Stepper, INTR};
+use crate::explore::{in_task_poll_burn, Act, Consumer, Ev, GRef, Ret, Runner, Stepper, INTR};
 use crate::gen::{decode_cfg, decode_spec, size_class, Profile, RunCfg, Shape, CALL_SHAPES};
 use crate::model::{build_graph, GraphFacts, GraphSpec};
 use crate::oracle::{check_run, Violation};
@@ -328,7 +328,14 @@ pub struct MultiCase {
     /// All runs polled from one task (one shared waker, `join`-like) instead of
     /// separate tasks.
     pub one_task: bool,
+    /// One-task mode inside tokio task polls: the runs share the task's
+    /// cooperative budget.  The schedule then contains window markers
+    /// `(usize::MAX, Burn(k))` / `(usize::MAX, Yield)`.
+    #[serde(default)]
+    pub coop: bool,
 }
+
+const MARK: usize = usize::MAX;
 
 pub struct MultiCheck {
     pub profile: Profile,
@@ -407,34 +414,79 @@ pub fn eval_multi(case: &MultiCase, lenient: bool) -> (MultiEval, Vec<(usize, Ac
     let mut started_order: Vec<usize> = vec![];
     let mut applied: Vec<(usize, Act)> = vec![];
     let mut overlap_started = vec![false; k];
-    for &(i, a) in &case.schedule {
-        if i >= k {
-            continue;
+    // split the schedule into windows (a single window without markers)
+    let mut windows: Vec<(usize, Vec<(usize, Act)>)> = vec![];
+    {
+        let mut cur: Vec<(usize, Act)> = vec![];
+        let mut burn = 0usize;
+        for &(i, a) in &case.schedule {
+            if i == MARK {
+                match a {
+                    Act::Burn(b) => burn = b,
+                    Act::Yield => {
+                        windows.push((burn, std::mem::take(&mut cur)));
+                        burn = 0;
+                    }
+                    _ => {}
+                }
+            } else {
+                cur.push((i, a));
+            }
         }
-        if steppers[i].is_none() {
-            // creating the run = calling the API (lazy futures: nothing runs yet)
-            for j in 0..k {
-                if j != i {
-                    if let Some(s) = &steppers[j] {
-                        if !s.done() {
-                            overlap_started[i] = true;
+        if !cur.is_empty() || windows.is_empty() {
+            windows.push((burn, cur));
+        }
+    }
+    let coop = case.coop;
+    for (burn, window) in windows {
+        if coop && burn > 0 {
+            applied.push((MARK, Act::Burn(burn)));
+        }
+        let mut body = || {
+            for &(i, a) in &window {
+                if i >= k {
+                    continue;
+                }
+                if steppers[i].is_none() {
+                    // creating the run = calling the API (lazy futures: nothing runs yet)
+                    for j in 0..k {
+                        if j != i {
+                            if let Some(s) = &steppers[j] {
+                                if !s.done() {
+                                    overlap_started[i] = true;
+                                }
+                            }
                         }
                     }
+                    let mut st = make_stepper(&g, &case.cfgs[i]);
+                    st.set_deferred(coop);
+                    steppers[i] = Some(st);
+                    started_order.push(i);
+                }
+                let s = steppers[i].as_mut().unwrap();
+                if s.done() {
+                    continue;
+                }
+                if s.apply(a) {
+                    applied.push((i, a));
+                } else if !lenient {
+                    // strict replays only come from recorded schedules; an inapplicable
+                    // action means the run diverged
+                    applied.push((i, a));
                 }
             }
-            steppers[i] = Some(make_stepper(&g, &case.cfgs[i]));
-            started_order.push(i);
-        }
-        let s = steppers[i].as_mut().unwrap();
-        if s.done() {
-            continue;
-        }
-        if s.apply(a) {
-            applied.push((i, a));
-        } else if !lenient {
-            // strict replays only come from recorded schedules; an inapplicable
-            // action means the run diverged
-            applied.push((i, a));
+        };
+        if coop {
+            in_task_poll_burn(burn, &mut body);
+            applied.push((MARK, Act::Yield));
+            for s in steppers.iter_mut().flatten() {
+                s.set_deferred(false);
+                s.note_yield();
+                s.observe();
+                s.set_deferred(true);
+            }
+        } else {
+            body();
         }
     }
     // finish every run with the default policy (round robin, lowest index first)
@@ -443,9 +495,14 @@ pub fn eval_multi(case: &MultiCase, lenient: bool) -> (MultiEval, Vec<(usize, Ac
         let mut progressed = false;
         for i in 0..k {
             if steppers[i].is_none() {
-                steppers[i] = Some(make_stepper(&g, &case.cfgs[i]));
+                let mut st = make_stepper(&g, &case.cfgs[i]);
+                st.set_deferred(coop);
+                steppers[i] = Some(st);
             }
             let s = steppers[i].as_mut().unwrap();
+            if coop {
+                s.set_deferred(false);
+            }
             if s.done() || s.stuck() {
                 continue;
             }
@@ -453,7 +510,18 @@ pub fn eval_multi(case: &MultiCase, lenient: bool) -> (MultiEval, Vec<(usize, Ac
             if opts.is_empty() {
                 continue;
             }
-            if s.apply(opts[0]) {
+            if coop {
+                s.set_deferred(true);
+                let ok = in_task_poll_burn(0, || s.apply(opts[0]));
+                s.set_deferred(false);
+                s.note_yield();
+                s.observe();
+                if ok {
+                    applied.push((i, opts[0]));
+                    applied.push((MARK, Act::Yield));
+                    progressed = true;
+                }
+            } else if s.apply(opts[0]) {
                 applied.push((i, opts[0]));
                 progressed = true;
             }
@@ -484,7 +552,38 @@ pub fn eval_multi(case: &MultiCase, lenient: bool) -> (MultiEval, Vec<(usize, Ac
     }
     // non-interference: solo replay on a fresh graph
     let mut execs = k as u64;
-    {
+    if coop {
+        // Runs in one tokio task share its cooperative budget, so *when* a poll
+        // makes progress legitimately depends on the neighbour and exact traces
+        // are not comparable.  What must hold: every per-run guarantee.  A
+        // guarantee that is broken next to another run but holds for the same run
+        // alone (same configuration, driven to completion inside task polls) is
+        // an interference.
+        let per_run = std::mem::take(&mut out);
+        for x in per_run {
+            out.push(x.clone());
+            // which run? re-evaluate each run alone and look for the same property
+            let mut broken_alone = false;
+            for i in 0..k {
+                let g2 = build_graph(&case.spec);
+                let mut solo = make_stepper(&g2, &case.cfgs[i]);
+                crate::cases::finish_default(solo.as_mut(), true);
+                execs += 1;
+                let sret = final_ret(solo.as_ref());
+                let (sv, _) = check_run(&facts, &case.cfgs[i], &solo.trace(), solo.acts(), &sret, &solo.engine_violations());
+                if sv.iter().any(|y| y.prop == x.prop) {
+                    broken_alone = true;
+                }
+            }
+            if !broken_alone {
+                out.push(v(
+                    "C20",
+                    "guarantee-broken-next-to-another-run",
+                    format!("[{}] {} — holds for each run alone, broken when the runs share one tokio task", x.prop, x.msg),
+                ));
+            }
+        }
+    } else {
         for i in 0..k {
             let s = steppers[i].as_ref().unwrap();
             let acts = s.acts().to_vec();
@@ -540,7 +639,8 @@ impl Check for MultiCheck {
         let mut ct = Tape::new(&tapes[1]);
         let k = 2 + if ct.chance(1, 4) { 1 } else { 0 };
         let cfgs: Vec<RunCfg> = (0..k).map(|_| decode_cfg(&mut ct, &self.profile, n, INTR)).collect();
-        let one_task = ct.chance(1, 4);
+        let one_task = ct.chance(1, 3);
+        let coop = one_task && ct.chance(1, 2);
         // generate the interleaving from the schedule tape by simulating
         let mut st = Tape::new(&tapes[2]);
         let schedule = {
@@ -548,40 +648,98 @@ impl Check for MultiCheck {
             let mut steppers: Vec<Option<Box<dyn Stepper + '_>>> = (0..k).map(|_| None).collect();
             let mut sched: Vec<(usize, Act)> = vec![];
             let mut steps = 0usize;
+            let mut finished = false;
             // start offsets: run i is created when first chosen
-            while steps < self.max_actions {
-                let live: Vec<usize> = (0..k)
-                    .filter(|i| match &steppers[*i] {
-                        None => true,
-                        Some(s) => !s.done() && !s.stuck(),
-                    })
-                    .collect();
-                if live.is_empty() {
-                    break;
+            while steps < self.max_actions && !finished {
+                // one window = one tokio task poll in coop mode, one step otherwise
+                let (wsize, burn) = if coop {
+                    (
+                        match st.below(4) {
+                            0 => 1,
+                            1 => 1 + st.below(8),
+                            2 => 1 + st.below(64),
+                            _ => 1 + st.below(300),
+                        },
+                        match st.below(4) {
+                            0 | 1 => 0,
+                            2 => st.below(128),
+                            _ => 96 + st.below(32),
+                        },
+                    )
+                } else {
+                    (1, 0)
+                };
+                if coop && burn > 0 {
+                    sched.push((MARK, Act::Burn(burn)));
                 }
-                let i = live[st.below(live.len())];
-                if steppers[i].is_none() {
-                    steppers[i] = Some(make_stepper(&g, &cfgs[i]));
-                }
-                let s = steppers[i].as_mut().unwrap();
-                let opts = s.options();
-                if opts.is_empty() {
-                    break;
-                }
-                let a = choose(&mut st, s.wants_poll(), &opts);
-                if a == Act::Poll && one_task {
-                    // one task: a poll of the task polls every run it contains
-                    for j in 0..k {
-                        if let Some(sj) = steppers[j].as_mut() {
-                            if !sj.done() && sj.apply(Act::Poll) {
-                                sched.push((j, Act::Poll));
+                let mut body = || {
+                    for _ in 0..wsize {
+                        if steps >= self.max_actions {
+                            break;
+                        }
+                        let live: Vec<usize> = (0..k)
+                            .filter(|i| match &steppers[*i] {
+                                None => true,
+                                // inside a coop window "stuck" is not observable yet
+                                Some(s) => !s.done() && (coop || !s.stuck()),
+                            })
+                            .collect();
+                        if live.is_empty() {
+                            finished = true;
+                            break;
+                        }
+                        let i = live[st.below(live.len())];
+                        if steppers[i].is_none() {
+                            let mut stp = make_stepper(&g, &cfgs[i]);
+                            stp.set_deferred(coop);
+                            steppers[i] = Some(stp);
+                        }
+                        let s = steppers[i].as_mut().unwrap();
+                        let opts = s.options();
+                        if opts.is_empty() {
+                            finished = true;
+                            break;
+                        }
+                        let a = choose(&mut st, s.wants_poll(), &opts);
+                        if a == Act::Poll && one_task {
+                            // one task: a poll of the task polls every run it contains
+                            for j in 0..k {
+                                if let Some(sj) = steppers[j].as_mut() {
+                                    if !sj.done() && sj.apply(Act::Poll) {
+                                        sched.push((j, Act::Poll));
+                                    }
+                                }
+                            }
+                        } else if s.apply(a) {
+                            sched.push((i, a));
+                        }
+                        steps += 1;
+                    }
+                };
+                if coop {
+                    in_task_poll_burn(burn, &mut body);
+                    sched.push((MARK, Act::Yield));
+                    for s in steppers.iter_mut().flatten() {
+                        s.set_deferred(false);
+                        s.note_yield();
+                        s.observe();
+                        s.set_deferred(true);
+                    }
+                    // after the observation a run may be known to be stuck
+                    if (0..k).all(|i| match &steppers[i] {
+                        None => false,
+                        Some(s) => {
+                            s.done() || {
+                                // peek with observation on
+                                false
                             }
                         }
+                    }) {
+                        finished = true;
                     }
-                } else if s.apply(a) {
-                    sched.push((i, a));
+                } else {
+                    body();
                 }
-                steps += 1;
             }
             sched
         };
@@ -590,13 +748,14 @@ impl Check for MultiCheck {
             cfgs,
             schedule,
             one_task,
+            coop,
         };
         let (ev, applied) = eval_multi(&case, true);
         case.schedule = applied;
         let mut labels = vec![
             format!("size:{}", size_class(n)),
             format!("runs:{}", k),
-            format!("mode:{}", if one_task { "one_task" } else { "separate_tasks" }),
+            format!("mode:{}", if coop { "one_tokio_task(shared coop budget)" } else if one_task { "one_task" } else { "separate_tasks" }),
         ];
         if ev.overlapping {
             labels.push("overlapping".into());
